@@ -6,7 +6,7 @@
     NAMES, so its exact equation is false (Example ckk_names_exact_false: contents differ); proved instead: equal objective value
     for every k and equal sums for k = 2 (PARTIAL; sums for k >= 3, snp, rnp are tested).  Bin completion on named items (repaired code:
     value-level search, then relabelling) is modelled in Model/BinCompletionNamed.v and proved like the others.  Statements only; proofs in Proofs/{Greedy,Packing,Covering,DP,Names,Multifit}Proofs.v. *)
-From Prtpy Require Import Base.Prelude Model.Binner Model.Objectives Model.Greedy Model.Packing Model.Covering Model.KK Model.CG Model.DP Model.CBLDM Model.Multifit Spec.Partition Proofs.GreedyProofs Proofs.PackingProofs Proofs.CoveringProofs Proofs.DPProofs Proofs.KKProofs Proofs.CKKOptimal Proofs.NamesProofs Proofs.MultifitProofs Model.BinCompletion Model.BinCompletionNamed Proofs.BCNamedProofs Model.Balanced Proofs.BalancedProofs.
+From Prtpy Require Import Base.Prelude Model.Binner Model.Objectives Model.Greedy Model.Packing Model.Covering Model.KK Model.CG Model.DP Model.CBLDM Model.Multifit Spec.Partition Proofs.GreedyProofs Proofs.PackingProofs Proofs.CoveringProofs Proofs.DPProofs Proofs.KKProofs Proofs.CKKOptimal Proofs.NamesProofs Proofs.CKKManagersProofs Proofs.MultifitProofs Model.BinCompletion Model.BinCompletionNamed Proofs.BCNamedProofs Model.Balanced Proofs.BalancedProofs.
 
 Theorem C07_greedy_names :
   forall (A : Type) (valueof : A -> Z) (k : nat) (items : list A),
@@ -116,30 +116,42 @@ Theorem C07_cover_threequarters_names :
 Proof. exact @tq_names. Qed.
 Print Assumptions C07_cover_threequarters_names.
 
-(** PARTIAL: complete KK reports the same optimal difference on named and plain input *)
-Theorem C07_ckk_names_value_partial :
-  forall (A : Type) (valueof nameof : A -> Z) (k : nat) (items : list A)
-  (b : bins A) (b' : bins Z),
-  (1 <= k)%nat ->
-  items <> [] ->
-  Forall (fun x : A => 0 <= valueof x) items ->
+(** complete KK, any number of bins: named items and their plain values give the same sums (names must determine values) *)
+Theorem C07_ckk_names_sums :
+  forall (A : Type) (valueof nameof : A -> Z) (k : nat) (items : list A),
   names_ok valueof nameof items ->
-  ckk valueof nameof true k items = Ok b ->
-  ckk (fun v : Z => v) (fun v : Z => v) true k (map valueof items) = Ok b' ->
-  value MinDiff (sums b) false = value MinDiff (sums b') false.
-Proof. exact @ckk_names_value. Qed.
-Print Assumptions C07_ckk_names_value_partial.
+  rmap sums (ckk valueof nameof true k items) =
+  rmap sums (ckk (fun v : Z => v) (fun v : Z => v) true k (map valueof items)).
+Proof. exact @ckk_names_sums. Qed.
+Print Assumptions C07_ckk_names_sums.
 
-(** PARTIAL: ... and the same sums for two bins *)
-Theorem C07_ckk_names_sums_2_partial :
-  forall (A : Type) (valueof nameof : A -> Z) (items : list A) (b : bins A) (b' : bins Z),
-  items <> [] ->
-  Forall (fun x : A => 0 <= valueof x) items ->
+(** ... more generally any two presentations of the same list of values *)
+Theorem C07_ckk_names_sums_gen :
+  forall (A B : Type) (valueof nameof : A -> Z) (valueof' nameof' : B -> Z)
+  (k : nat) (items : list A) (items' : list B),
+  map valueof items = map valueof' items' ->
   names_ok valueof nameof items ->
-  ckk valueof nameof true 2 items = Ok b ->
-  ckk (fun v : Z => v) (fun v : Z => v) true 2 (map valueof items) = Ok b' -> sums b = sums b'.
-Proof. exact @ckk_names_sums_2. Qed.
-Print Assumptions C07_ckk_names_sums_2_partial.
+  names_ok valueof' nameof' items' ->
+  rmap sums (ckk valueof nameof true k items) = rmap sums (ckk valueof' nameof' true k items').
+Proof. exact @ckk_names_sums_gen. Qed.
+Print Assumptions C07_ckk_names_sums_gen.
+
+(** ... and the same for every partition yielded by the generator (every mode) *)
+Theorem C07_ckk_generator_names_sums :
+  forall (A : Type) (valueof nameof : A -> Z) (k : nat) (items : list A) (init : option Z),
+  names_ok valueof nameof items ->
+  map sums (ckk_generator valueof nameof true k items init) =
+  map sums (ckk_generator (fun v : Z => v) (fun v : Z => v) true k (map valueof items) init).
+Proof. exact @ckk_generator_names_sums. Qed.
+Print Assumptions C07_ckk_generator_names_sums.
+
+(** the sums-only manager never reads the names: exact equation, no hypothesis *)
+Theorem C07_ckk_sums_manager_names :
+  forall (A : Type) (valueof nameof : A -> Z) (nameof' : Z -> Z) (k : nat) (items : list A),
+  rmap (map_bins valueof) (ckk valueof nameof false k items) =
+  ckk (fun v : Z => v) nameof' false k (map valueof items).
+Proof. exact @ckk_sums_manager_names. Qed.
+Print Assumptions C07_ckk_sums_manager_names.
 
 (** bin completion on named items (search on the values, names put back): projects to the value-level run *)
 Theorem C07_bin_completion_names :
